@@ -321,7 +321,7 @@ func TestKnown(t *testing.T)  { kit.RunKnown(t) }
 func TestReplay(t *testing.T) { kit.RunReplay(t) }
 
 func TestTableModel(t *testing.T) {
-	kit.Rapid(t, "model", 150000, 2000000, func(t *rapid.T) {
+	kit.Rapid(t, "model", 150000, 8000000, func(t *rapid.T) {
 		cfg := gen.DrawConfig(t, gen.ConfigOpts{SafeOnly: true})
 		if !cfg.HasTable() {
 			cfg.Table = true
@@ -407,7 +407,7 @@ func TestTableModel(t *testing.T) {
 var tblSoup = &gen.Profile{Name: "tblsoup", NoHTML: true, Extra: []string{"a", "b", " ", "|", "|", "|", "|", "-", "--", ":", ":-", "-:", ":-:", "\n", "\n", "\n", "\\|", "`", "``", "\\", "> ", "- ", "  ", "    ", "*", "\n\n", "x|y", "| a | b |\n", "|-|-|\n", "|:-|-:|\n", "\\\\|", "||", "|a|\n|-|\n", "a|b\n-|-\n", "|\n", "| |\n"}}
 
 func TestTableSoup(t *testing.T) {
-	kit.Rapid(t, "soup", 150000, 2000000, func(t *rapid.T) {
+	kit.Rapid(t, "soup", 150000, 8000000, func(t *rapid.T) {
 		cfg := gen.DrawConfig(t, gen.ConfigOpts{SafeOnly: true})
 		if !cfg.HasTable() {
 			cfg.Table = true
